@@ -8,6 +8,8 @@ R17.2 failure iff non-empty: the main loop returns Ok only on the buffer-is-empt
 R17.3 strict records all    : in the main loop's Err arm the payload is recorded for the jump kinds (when not permissive) and for
       every other kind unconditionally, and the thread is killed on every path of the arm.
 R17.4 flag read only there  : the permissive flag is read only in conditions guarding an error-buffer writer.
+R17.6 error sources intact  : every operation that grows the stack sits behind the 1024-item depth test, an empty pop is turned
+      into an error, and gas is charged / inherited as C03 R03.4 requires: an error that is never raised cannot be surfaced.
 R17.5 errors are located    : in opcode implementations, the stack handle and the VM loop, the argument of `.locate(..)` derives
       from the current instruction pointer.
 """
@@ -361,6 +363,57 @@ def check(fx, rep, tier):
     rep.floor("R17.5", n_loc, 20, "located execution errors on execution paths")
     rep.extra["no_current_thread_sites_listed"] = listed
     rep.exhaustive = True
+    # ---------------------------------------------------------------- R17.6 the error sources are intact
+    # "any error raised": an overflow / underflow / gas exhaustion that is no longer *raised* cannot be surfaced.
+    STACK = "vm::state::stack::Stack"
+    GROW = {"push", "insert", "extend", "extend_from_slice", "extend_from_within", "resize", "resize_with", "append", "splice", "push_within_capacity"}
+    n_src = 0
+    for b in fx.fn_bodies():
+        if b.get("impl_self") != STACK or not b.get("hir"):
+            continue
+        root6 = b["hir"]["value"]
+        for c, cps in F.calls(root6):
+            if c.get("k") != "MethodCall":
+                continue
+            recv = T.term(c["recv"], T.Env())
+            on_data = recv[0] == "field" and recv[1][0] == "local" and recv[1][2] == "self"
+            if not on_data or "std::vec::Vec<" not in (c.get("recv_ty") or ""):
+                continue
+            if c["method"] in GROW:
+                n_src += 1
+                ck = T._span_key(c["span"])
+                guarded = False
+                for m, mps in F.walk(root6):
+                    if m.get("k") == "If" and "else" not in m and T.diverges(m["then"]) and T._span_key(m["span"])[2] <= ck[1]:
+                        builds = any(x.get("k") == "Struct" and x.get("adt") == EXEC_ERR and x.get("variant") == "StackDepthExceeded" for x, _ in F.walk(m["then"]))
+                        ct = T.term(m["cond"], T.Env())
+                        bound = None
+                        for q in T.subterms(ct):
+                            if q[0] == "path":
+                                v = fx.const_value(q[1])
+                                if v is not None:
+                                    bound = v
+                        mentions_len = any(q[0] == "call" and isinstance(q[1], str) and F.strip_generics(q[1]).endswith("::len") for q in T.subterms(ct))
+                        if builds and mentions_len and bound == 1024:
+                            guarded = True
+                rep.oblige(
+                    guarded,
+                    "R17.6",
+                    f"stack-growth:{b['name']}:{c['method']}",
+                    F.loc(c["span"]),
+                    f"`Stack::{b['name']}` grows the stack with `{c['method']}` without the depth test against the 1024-item limit in front of it: a stack overflow through this operation is never raised, so no mode can surface it",
+                    sample={"rule": "R17.6", "fn": b["def"], "grows_with": c["method"], "depth_test_first": guarded},
+                )
+            if c["method"] == "pop":
+                n_src += 1
+                turned = any(a.get("k") == "MethodCall" and a["method"] in ("ok_or", "ok_or_else") and key == "recv" for a, key in cps[-2:])
+                rep.oblige(turned, "R17.6", f"stack-underflow:{b['name']}", F.loc(c["span"]), f"`Stack::{b['name']}` does not turn an empty stack into an error: a stack underflow is never raised")
+    rep.floor("R17.6", n_src, 2, "operations of the stack that can overflow / underflow")
+    # gas exhaustion: the counter is charged per instruction, inherited on fork and written nowhere else (C03 R03.4)
+    from .. import core
+
+    core.import_rules(rep, fx, "C03", "R17.6", only_rules=("R03.4",), floor=3, what="gas accounting obligations (C03 R03.4) behind 'gas exhaustion is raised'")
+
     return rep.finish(
         "Case analysis of every place an execution error is recorded in the VM's buffer (kinds reaching it x dependence on the permissive flag), "
         "of the main loop's result (Ok only on the empty-buffer edge), of the Err arm (record + unconditional kill), of every read of the flag, and of "
